@@ -25,7 +25,7 @@ func verifCopyJSON(v any) any {
 	return v
 }
 
-//verif:harness id=C13 tier=quick,thorough witness=end bounds="object schema {a: number default Da (symbolic), b: string, c: object{d: number default Dd}} + allOf[{e: number default De}] x value: each of a,b,c,c.d,e present (symbolic number / ASCII len<=1) or absent; VisitAsRequest + DefaultsSet; after one pass: absent defaulted properties hold exactly their default, present ones unchanged, no other key appears; callback runs once iff something was defaulted; second pass changes nothing"
+//verif:harness id=C13 tier=quick,thorough witness=end bounds="object schema {a: number default Da (symbolic), b: string, z: nullable number default Da (absent / explicit null / number), c: object{d: number default Dd}} + allOf[{e: number default De}] x value: each of a,b,c,c.d,e present (symbolic number / ASCII len<=1) or absent; VisitAsRequest + DefaultsSet; after one pass: absent defaulted properties hold exactly their default, present ones unchanged, no other key appears; callback runs once iff something was defaulted; second pass changes nothing"
 func verifH_C13_defaults() {
 	da, dd, de := verifFiniteFloat("Da"), verifFiniteFloat("Dd"), verifFiniteFloat("De")
 	num := func(def any) *SchemaRef {
@@ -35,6 +35,8 @@ func verifH_C13_defaults() {
 	s := &Schema{Type: &Types{"object"}, Properties: Schemas{
 		"a": num(da),
 		"b": &SchemaRef{Value: &Schema{Type: &Types{"string"}}},
+		// nullable with a default: an explicit null is a present value, not an absent property
+		"z": &SchemaRef{Value: &Schema{Type: &Types{"number"}, Nullable: true, Default: da}},
 		"c": &SchemaRef{Value: inner},
 	}, AllOf: SchemaRefs{{Value: &Schema{Type: &Types{"object"}, Properties: Schemas{"e": num(de)}}}}}
 	v := map[string]any{}
@@ -55,6 +57,13 @@ func verifH_C13_defaults() {
 	if hasE {
 		v["e"] = verifFiniteFloat("ve")
 	}
+	zKind := verifChoose("z", 3) // absent, explicit null, number
+	switch zKind {
+	case 1:
+		v["z"] = nil
+	case 2:
+		v["z"] = verifFiniteFloat("vz")
+	}
 	before := verifCopyJSON(v).(map[string]any)
 	calls := 0
 	err := s.VisitJSON(v, VisitAsRequest(), DefaultsSet(func() { calls++ }))
@@ -73,6 +82,10 @@ func verifH_C13_defaults() {
 	}
 	if !hasE {
 		want["e"] = de
+		defaulted = true
+	}
+	if zKind == 0 {
+		want["z"] = da
 		defaulted = true
 	}
 	verifAssert(reflect.DeepEqual(v, want), "C13 defaults: each absent property with a default holds exactly that default and nothing else changed")
